@@ -126,6 +126,12 @@ def build(pendulum, case):
         a = build(pendulum, case["a"])[1]
         b = build(pendulum, case["b"])[1]
         return "Interval", pendulum.Interval(a, b, absolute=case["abs"]), True
+    if k == "iv-native":
+        # endpoints handed over as native datetimes (Interval converts them itself)
+        def nat(c):
+            v = build(pendulum, c)[1]
+            return dt_.datetime(*obs.fields(v), tzinfo=v.tzinfo, fold=v.fold)
+        return "Interval-from-native", pendulum.Interval(nat(case["a"]), nat(case["b"]), absolute=case["abs"]), True
     if k == "tz":
         return "Timezone", pendulum.timezone(case["name"]), False
     if k == "fixed":
@@ -220,6 +226,9 @@ def run_shard(shard):
             for ab in (False, True):
                 cases.append({"k": "iv", "a": a, "b": b, "abs": ab})
                 cases.append({"k": "iv", "a": b, "b": a, "abs": ab})
+                if a["k"] == "dt":
+                    cases.append({"k": "iv-native", "a": a, "b": b, "abs": ab})
+                    cases.append({"k": "iv-native", "a": b, "b": a, "abs": ab})
         for c in cases:
             acc.c["states"] += 1
             run_case(acc, pendulum, c)
@@ -260,7 +269,9 @@ def plan(tier, seed):
         shards.append({"kind": "durations", "cases": ch})
     for o0 in range(-1439, 1440, 240):
         shards.append({"kind": "fixed", "o0": o0, "o1": min(1440, o0 + 240)})
-    return [({"ext": 1, "tz": "sys"}, shards)] + ([({"ext": 0, "tz": "pkg"}, shards)] if thorough else [])
+    # Interval components come from precise_diff: the value seeds that carry intervals also run on the Python twin
+    light = [sh for sh in shards if sh["kind"] == "misc"] + shards[seed % 5:40:5]
+    return [({"ext": 1, "tz": "sys"}, shards)] + [({"ext": 0, "tz": "pkg"}, shards if thorough else light)]
 
 
 def evidence(m, tier, seed):
